@@ -14,15 +14,15 @@ import (
 )
 
 type PropSpec struct {
-	Level       string   `json:"level"` // proof | other
-	Funcs       []string `json:"funcs"`
-	Clauses     []string `json:"clauses"` // regexps over obligation names that count for this property (default: all)
-	Exclude     []string `json:"exclude"`
-	Explanation string   `json:"explanation"`
-	Assumptions []string `json:"assumptions"`
-	Bounded     []string `json:"bounded"` // descriptions of bounded stand-ins (never counted as discharged)
+	Level       string                       `json:"level"` // proof | other
+	Funcs       []string                     `json:"funcs"`
+	Clauses     []string                     `json:"clauses"` // regexps over obligation names that count for this property (default: all)
+	Exclude     []string                     `json:"exclude"`
+	Explanation string                       `json:"explanation"`
+	Assumptions []string                     `json:"assumptions"`
+	Bounded     []string                     `json:"bounded"`      // descriptions of bounded stand-ins (never counted as discharged)
 	BoundedCmds map[string]map[string]string `json:"bounded_cmds"` // name -> tier -> command (cwd /verif) printing one JSON line {"name","ok","bound",...,"counterexample"}
-	NotDecided  []string `json:"not_decided"`
+	NotDecided  []string                     `json:"not_decided"`
 }
 
 type KnownFinding struct {
@@ -37,11 +37,14 @@ type KnownFinding struct {
 }
 
 // witnessStillFails replays the finding's witness against the real code (go test -overlay); true = the defect is still there
+var witnessRepo = "/repo"
+
 func witnessStillFails(test string) (bool, string) {
 	if test == "" {
 		return true, "no witness test recorded"
 	}
 	cmd := exec.Command("/verif/replay/run_witnesses.sh", "-run", "^"+test+"$")
+	cmd.Env = append(os.Environ(), "VERIF_REPO="+witnessRepo)
 	out, err := cmd.CombinedOutput()
 	return err != nil, firstLines(string(out), 6)
 }
@@ -129,7 +132,7 @@ func (x *Exec) runProperty(prop, mapFile, tier, evDir, dump, known, replayDir st
 			for _, b := range s.Backends {
 				backends[b]++
 			}
-		} else {
+		} else if s.Status != "SKIPPED" {
 			failed = append(failed, s)
 		}
 	}
@@ -175,12 +178,17 @@ func (x *Exec) runProperty(prop, mapFile, tier, evDir, dump, known, replayDir st
 	}
 	sort.Strings(bnames)
 	for _, n := range bnames {
+		if os.Getenv("GOVC_FAILFAST") != "" && violations > 0 {
+			break // bulk runs over mutants: the verdict is settled
+		}
 		cmdline := ps.BoundedCmds[n][tier]
 		if cmdline == "" {
 			cmdline = ps.BoundedCmds[n]["quick"]
 		}
 		tb := time.Now()
-		out, err := exec.Command("sh", "-c", cmdline).CombinedOutput()
+		bc := exec.Command("sh", "-c", cmdline)
+		bc.Env = append(os.Environ(), "VERIF_REPO="+x.repoDir)
+		out, err := bc.CombinedOutput()
 		var res map[string]interface{}
 		lines := strings.Split(strings.TrimSpace(string(out)), "\n")
 		if jerr := json.Unmarshal([]byte(lines[len(lines)-1]), &res); jerr != nil || err != nil && res == nil {
@@ -259,24 +267,26 @@ func (x *Exec) runProperty(prop, mapFile, tier, evDir, dump, known, replayDir st
 		level = "proof"
 	}
 	cov := map[string]interface{}{
-		"obligations":              nObl,
-		"discharged":               nDis,
-		"path_checks":              len(rs),
-		"checker_cmd":              fmt.Sprintf("bin/govc -repo /repo -prop %s -tier %s (VC generator over go/ssa of /repo's working tree; solvers z3 4.8.12, z3 5.1.0, cvc5 1.0.3 raced per path check)", prop, tier),
-		"trusted_base":             trusted,
-		"functions_under_contract": funcsUnder,
-		"obligation_list":          oblList,
-		"samples":                  samples,
-		"backends":                 backends,
-		"solver_ms":                solverMs,
-		"canaries":                 map[string]int{"cover_obligations": nCover, "reachable": nCoverOK},
-		"known_findings_hit":       knownHit,
-		"bounded_stand_ins":        ps.Bounded,
-		"bounded_results":          boundedRes,
-		"not_decided":              ps.NotDecided,
-		"outside_subset":           subsetErrs,
-		"explanation":              ps.Explanation,
-		"contract_files":           x.relFiles(),
+		"obligations":                   nObl,
+		"discharged":                    nDis,
+		"path_checks":                   len(rs),
+		"checker_cmd":                   fmt.Sprintf("bin/govc -repo /repo -prop %s -tier %s (VC generator over go/ssa of /repo's working tree; solvers z3 4.8.12, z3 5.1.0, cvc5 1.0.3 raced per path check)", prop, tier),
+		"trusted_base":                  trusted,
+		"functions_under_contract":      funcsUnder,
+		"obligation_list":               oblList,
+		"samples":                       samples,
+		"backends":                      backends,
+		"solver_ms":                     solverMs,
+		"canaries":                      map[string]int{"cover_obligations": nCover, "reachable": nCoverOK},
+		"known_findings_hit":            knownHit,
+		"bounded_stand_ins":             ps.Bounded,
+		"bounded_results":               boundedRes,
+		"not_decided":                   ps.NotDecided,
+		"outside_subset":                subsetErrs,
+		"explanation":                   ps.Explanation,
+		"contract_files":                x.relFiles(),
+		"contract_identifiers_remapped": x.renamed, // function -> {name in the contract: current name}; empty on the tree the contracts were written for
+		"loops_adopted_from_helpers":    x.adoptedLoops(),
 	}
 	ev := map[string]interface{}{
 		"property_id": prop,
